@@ -48,7 +48,7 @@ def loc_of(body, t=None):
 
 def call_blocks(body, pattern):
     r = re.compile(pattern)
-    return [(i, t) for i, t in body.calls() if r.search(callee_name(t)) or r.search(t["f"].get("path") or "")]
+    return [(i, t) for i, t in body.calls() if r.search(callee_name(t)) or r.search(t["f"].get("path") or "") or r.search(strip_generics(callee_name(t)))]
 
 
 def agg_sites(body, adt, var=None):
